@@ -1,7 +1,578 @@
-//! C14 — not built yet.
-use lv_common::Ctx;
+//! C14 — Namespaces are validated, ordered and round-trip.
+//!
+//! Oracle: a reference predicate written from the property statement (not from nmt.rs):
+//!   `new(version, id)` is Ok  <=>  (version == 0  and (len == 28 and id[..18] all zero, or len <= 10 [shorthand]))
+//!                               or (version == 255 and  len == 28 and id[..27] all 0xff)
+//!   and the produced 29 bytes are `version || id` (shorthand: id left-padded with zeros to 28 bytes);
+//!   `from_raw(b)` is Ok <=> b.len() == 29 and new(b[0], b[1..]) is Ok (no shorthand is reachable at that length);
+//! byte form / serde-JSON form (base64 string, encoded by the harness' own base64) / v0 shorthand round trips;
+//! `cmp` == lexicographic comparison of the 29 bytes; `is_reserved` <=> bytes <= 0x00^28 0xff  or  bytes >= 0xff^28 0x00.
+use std::cmp::Ordering;
 
-pub fn run(_ctx: &mut Ctx) {
-    eprintln!("C14: check not built yet");
-    std::process::exit(2);
+use celestia_types::nmt::Namespace;
+use lv_common::prelude::*;
+
+pub const NS: usize = 29;
+const B64: &[u8; 64] = b"ABCDEFGHIJKLMNOPQRSTUVWXYZabcdefghijklmnopqrstuvwxyz0123456789+/";
+
+/// harness-owned standard base64 (with padding)
+pub fn b64(data: &[u8]) -> String {
+    let mut out = String::new();
+    for ch in data.chunks(3) {
+        let n = (ch[0] as u32) << 16 | (*ch.get(1).unwrap_or(&0) as u32) << 8 | *ch.get(2).unwrap_or(&0) as u32;
+        out.push(B64[(n >> 18) as usize & 63] as char);
+        out.push(B64[(n >> 12) as usize & 63] as char);
+        out.push(if ch.len() > 1 { B64[(n >> 6) as usize & 63] as char } else { '=' });
+        out.push(if ch.len() > 2 { B64[n as usize & 63] as char } else { '=' });
+    }
+    out
+}
+
+/// reference: bytes the namespace must consist of, or None when construction must fail
+pub fn ref_new(version: u8, id: &[u8]) -> Option<[u8; NS]> {
+    let mut out = [0u8; NS];
+    match version {
+        0 => {
+            if id.len() == 28 {
+                if id[..18].iter().any(|b| *b != 0) {
+                    return None;
+                }
+                out[1..].copy_from_slice(id);
+                Some(out)
+            } else if id.len() <= 10 {
+                out[NS - id.len()..].copy_from_slice(id);
+                Some(out)
+            } else {
+                None
+            }
+        }
+        255 => {
+            if id.len() == 28 && id[..27].iter().all(|b| *b == 0xff) {
+                out[0] = 255;
+                out[1..].copy_from_slice(id);
+                Some(out)
+            } else {
+                None
+            }
+        }
+        _ => None,
+    }
+}
+
+pub fn ref_from_raw(raw: &[u8]) -> Option<[u8; NS]> {
+    if raw.len() != NS {
+        return None;
+    }
+    ref_new(raw[0], &raw[1..])
+}
+
+const MAX_PRIMARY: [u8; NS] = {
+    let mut b = [0u8; NS];
+    b[NS - 1] = 0xff;
+    b
+};
+const MIN_SECONDARY: [u8; NS] = {
+    let mut b = [0xffu8; NS];
+    b[NS - 1] = 0;
+    b
+};
+
+pub fn ref_reserved(b: &[u8; NS]) -> bool {
+    b[..] <= MAX_PRIMARY[..] || b[..] >= MIN_SECONDARY[..]
+}
+
+#[derive(Clone, Copy, Debug, Serialize, Deserialize, PartialEq)]
+pub enum Fill {
+    Zeros,
+    Ones,
+    /// non-zero, non-0xff incrementing pattern
+    Pattern,
+    /// 18 zero bytes then the pattern (as far as the length reaches)
+    V0Shape,
+    /// 27 0xff bytes then the pattern
+    V255Shape,
+}
+
+fn fill_bytes(fill: Fill, len: usize) -> Vec<u8> {
+    (0..len)
+        .map(|i| {
+            let pat = (i as u8 % 200) + 1;
+            match fill {
+                Fill::Zeros => 0,
+                Fill::Ones => 0xff,
+                Fill::Pattern => pat,
+                Fill::V0Shape => {
+                    if i < 18 {
+                        0
+                    } else {
+                        pat
+                    }
+                }
+                Fill::V255Shape => {
+                    if i < 27 {
+                        0xff
+                    } else {
+                        pat
+                    }
+                }
+            }
+        })
+        .collect()
+}
+
+#[derive(Clone, Debug, Serialize, Deserialize)]
+pub struct GridCase {
+    pub version: u8,
+    pub len: u8,
+    pub fill: Fill,
+}
+
+#[derive(Clone, Debug, Serialize, Deserialize)]
+pub struct CorruptCase {
+    /// true: version 255 base, false: version 0 base
+    pub v255: bool,
+    /// selects the base namespace's free bytes
+    pub base: u8,
+    /// raw byte position 0..=18 (v0) / 0..=27 (v255); 0 is the version byte
+    pub pos: u8,
+    /// replacement value (always different from the original byte)
+    pub val: u8,
+}
+
+fn base_ns(v255: bool, base: u8) -> [u8; NS] {
+    let mut b = [0u8; NS];
+    if v255 {
+        b = [0xff; NS];
+        b[NS - 1] = [0x00, 0xfe, 0xff, 0x5a][base as usize % 4];
+    } else {
+        let suffix: [u8; 10] = match base % 4 {
+            0 => [0; 10],
+            1 => [0, 0, 0, 0, 0, 0, 0, 0, 0, 1],
+            2 => [0xff; 10],
+            _ => [0x12, 0x34, 0x56, 0x78, 0x9a, 0xbc, 0xde, 0xf0, 0x0f, 0x1e],
+        };
+        b[19..].copy_from_slice(&suffix);
+    }
+    b
+}
+
+/// Everything the property says about one *accepted* namespace.
+fn check_accepted(obs: &mut Obs, ns: &Namespace, want: &[u8; NS], how: &str) -> Result<(), Failure> {
+    obs.check(ns.as_bytes() == &want[..], "C14:constructed-bytes-differ", || {
+        format!("{how}: constructed namespace bytes {:02x?} differ from version||id {:02x?}", ns.as_bytes(), want)
+    })?;
+    obs.check(ns.version() == want[0] && ns.id() == &want[1..], "C14:accessors", || {
+        format!("{how}: version()/id() disagree with the bytes {want:02x?}")
+    })?;
+    // byte form
+    match Namespace::from_raw(ns.as_bytes()) {
+        Ok(back) => obs.check(back == *ns, "C14:bytes-roundtrip", || format!("{how}: from_raw(as_bytes()) != ns for {want:02x?}"))?,
+        Err(e) => obs.fail("C14:bytes-roundtrip", format!("{how}: from_raw(as_bytes()) failed for {want:02x?}: {e}"))?,
+    }
+    // serde form: JSON string holding standard base64 of the 29 bytes
+    let js = serde_json::to_string(ns).map_err(|e| Failure::new("C14:serde-roundtrip", format!("serialize failed: {e}")))?;
+    let want_js = format!("\"{}\"", b64(want));
+    obs.check(js == want_js, "C14:serde-form", || format!("{how}: JSON form {js} != {want_js}"))?;
+    match serde_json::from_str::<Namespace>(&js) {
+        Ok(back) => obs.check(back == *ns, "C14:serde-roundtrip", || format!("{how}: from_str(to_string(ns)) != ns for {want:02x?}"))?,
+        Err(e) => obs.fail("C14:serde-roundtrip", format!("{how}: JSON form {js} does not parse back: {e}"))?,
+    }
+    // version-0 shorthand
+    match (want[0], ns.id_v0()) {
+        (0, Some(short)) => {
+            obs.check(short == &want[19..], "C14:id-v0", || format!("{how}: id_v0() {short:02x?} is not the last 10 bytes of {want:02x?}"))?;
+            match Namespace::new_v0(short) {
+                Ok(back) => obs.check(back == *ns, "C14:v0-shorthand-roundtrip", || format!("{how}: new_v0(id_v0()) != ns for {want:02x?}"))?,
+                Err(e) => obs.fail("C14:v0-shorthand-roundtrip", format!("{how}: new_v0(id_v0()) failed for {want:02x?}: {e}"))?,
+            }
+        }
+        (0, None) => obs.fail("C14:id-v0", format!("{how}: id_v0() is None for the version-0 namespace {want:02x?}"))?,
+        (_, Some(s)) => obs.fail("C14:id-v0", format!("{how}: id_v0() = {s:02x?} for the version-{} namespace", want[0]))?,
+        (_, None) => {}
+    }
+    // reserved
+    let r = ref_reserved(want);
+    obs.check(ns.is_reserved() == r, "C14:is-reserved", || {
+        format!("{how}: is_reserved() = {} but bytes {want:02x?} are {}reserved by the byte-order rule", ns.is_reserved(), if r { "" } else { "not " })
+    })?;
+    Ok(())
+}
+
+/// run every raw-bytes constructor on (version, id) and compare with the reference
+fn check_constructors(obs: &mut Obs, version: u8, id: &[u8], label_prefix: &str) -> Result<bool, Failure> {
+    let want = ref_new(version, id);
+    let got = Namespace::new(version, id);
+    match (&got, &want) {
+        (Ok(ns), Some(w)) => check_accepted(obs, ns, w, "new")?,
+        (Err(_), None) => {}
+        (Ok(ns), None) => obs.fail(
+            "C14:constructed-invalid",
+            format!("Namespace::new({version}, {id:02x?}) accepted (bytes {:02x?}) although it is neither v0 with 18 zero bytes nor v255 with 27 0xff bytes", ns.as_bytes()),
+        )?,
+        (Err(e), Some(_)) => obs.fail("C14:valid-rejected", format!("Namespace::new({version}, {id:02x?}) rejected a valid namespace: {e}"))?,
+    }
+    // the version-specific constructors
+    if version == 0 {
+        let g = Namespace::new_v0(id);
+        obs.check(g.is_ok() == want.is_some(), "C14:new-v0-disagrees", || format!("new_v0({id:02x?}) ok={} but reference says {}", g.is_ok(), want.is_some()))?;
+        if let (Ok(ns), Some(w)) = (&g, &want) {
+            check_accepted(obs, ns, w, "new_v0")?;
+        }
+    }
+    if version == 255 {
+        let g = Namespace::new_v255(id);
+        obs.check(g.is_ok() == want.is_some(), "C14:new-v255-disagrees", || format!("new_v255({id:02x?}) ok={} but reference says {}", g.is_ok(), want.is_some()))?;
+        if let (Ok(ns), Some(w)) = (&g, &want) {
+            check_accepted(obs, ns, w, "new_v255")?;
+        }
+    }
+    // from_raw on version||id, and the JSON route to from_raw
+    let mut raw = vec![version];
+    raw.extend_from_slice(id);
+    let want_raw = ref_from_raw(&raw);
+    let got_raw = Namespace::from_raw(&raw);
+    match (&got_raw, &want_raw) {
+        (Ok(ns), Some(w)) => check_accepted(obs, ns, w, "from_raw")?,
+        (Err(_), None) => {}
+        (Ok(ns), None) => obs.fail(
+            "C14:constructed-invalid",
+            format!("Namespace::from_raw({raw:02x?}) (len {}) accepted, bytes {:02x?}", raw.len(), ns.as_bytes()),
+        )?,
+        (Err(e), Some(_)) => obs.fail("C14:valid-rejected", format!("Namespace::from_raw({raw:02x?}) rejected a valid namespace: {e}"))?,
+    }
+    let js = format!("\"{}\"", b64(&raw));
+    let got_js = serde_json::from_str::<Namespace>(&js);
+    match (&got_js, &want_raw) {
+        (Ok(ns), Some(w)) => obs.check(ns.as_bytes() == &w[..], "C14:serde-roundtrip", || format!("JSON {js} parsed to other bytes {:02x?}", ns.as_bytes()))?,
+        (Err(_), None) => {}
+        (Ok(ns), None) => obs.fail("C14:constructed-invalid", format!("JSON {js} (raw {raw:02x?}) deserialised to a namespace {:02x?}", ns.as_bytes()))?,
+        (Err(e), Some(_)) => obs.fail("C14:valid-rejected", format!("JSON {js} of a valid namespace rejected: {e}"))?,
+    }
+    let accepted = want.is_some();
+    match (&want, version, id.len()) {
+        (Some(_), 0, 28) => obs.label("accepted-v0-full"),
+        (Some(_), 0, _) => obs.label("accepted-v0-short"),
+        (Some(_), _, _) => obs.label("accepted-v255"),
+        (None, v, _) if v != 0 && v != 255 => obs.label("rejected-version"),
+        (None, 0, l) if l != 28 => obs.label("rejected-length"),
+        (None, 255, l) if l != 28 => obs.label("rejected-length"),
+        (None, _, _) => obs.label(&format!("{label_prefix}rejected-prefix")),
+    }
+    Ok(accepted)
+}
+
+#[derive(Clone, Debug, Serialize, Deserialize)]
+pub enum NsSpec {
+    /// version 0 with the given 10-byte suffix
+    V0([u8; 10]),
+    /// version 0, suffix = zeros except the last `n` bytes taken from the value (boundary shaped)
+    V0Low(u16),
+    V255(u8),
+}
+
+impl NsSpec {
+    pub fn bytes(&self) -> [u8; NS] {
+        let mut b = [0u8; NS];
+        match self {
+            NsSpec::V0(s) => b[19..].copy_from_slice(s),
+            NsSpec::V0Low(v) => b[27..].copy_from_slice(&v.to_be_bytes()),
+            NsSpec::V255(x) => {
+                b = [0xff; NS];
+                b[NS - 1] = *x;
+            }
+        }
+        b
+    }
+}
+
+pub fn ns_spec_strategy() -> impl Strategy<Value = NsSpec> {
+    prop_oneof![
+        4 => any::<[u8; 10]>().prop_map(NsSpec::V0),
+        // suffixes sharing a long prefix, so that order is decided late
+        2 => (any::<[u8; 2]>(), 0usize..9).prop_map(|(x, at)| {
+            let mut s = [0x77u8; 10];
+            s[at] = x[0];
+            s[at + 1] = x[1];
+            NsSpec::V0(s)
+        }),
+        3 => prop_oneof![0u16..=0x0102, any::<u16>()].prop_map(NsSpec::V0Low),
+        2 => prop_oneof![Just(0u8), Just(1), Just(0xfe), Just(0xff), any::<u8>()].prop_map(NsSpec::V255),
+    ]
+}
+
+#[derive(Clone, Debug, Serialize, Deserialize)]
+pub struct RandCase {
+    pub a: NsSpec,
+    pub b: NsSpec,
+    /// random raw input: length 0..=40 and payload seed, shaped by `shape`
+    pub raw_len: u8,
+    pub raw_seed: u64,
+    pub shape: u8,
+    /// multi-byte corruption of `a`: (position selector, value)
+    pub edits: Vec<(u16, u8)>,
+    /// short id for the v0 shorthand
+    pub short: Vec<u8>,
+}
+
+pub fn run(ctx: &mut Ctx) {
+    ctx.assume("reference predicate, reserved bounds (0x00^28 0xff, 0xff^28 0x00) and base64 are written in the harness from the property statement");
+    ctx.assume("the serde form is exercised through serde_json (the form used on the RPC); postcard is not exercised");
+    ctx.essential(&[
+        "accepted-v0-full",
+        "accepted-v0-short",
+        "accepted-v255",
+        "rejected-version",
+        "rejected-length",
+        "grid-rejected-prefix",
+        "one-byte-v0-prefix-rejected",
+        "one-byte-v255-prefix-rejected",
+        "one-byte-version-rejected",
+        "reserved-boundary-primary",
+        "reserved-boundary-secondary",
+        "order-decided-in-last-10-bytes",
+        "order-v0-vs-v255",
+        "wire-version-above-255-rejected",
+    ]);
+
+    // ---- exhaustive grid: all versions x id lengths 0..=40 x fill shapes
+    let mut grid = Vec::new();
+    for version in 0..=255u8 {
+        for len in 0..=40u8 {
+            for fill in [Fill::Zeros, Fill::Ones, Fill::Pattern, Fill::V0Shape, Fill::V255Shape] {
+                grid.push(GridCase { version, len, fill });
+            }
+        }
+    }
+    ctx.enumerate(
+        "grid",
+        "all 256 versions x every id length 0..=40 x 5 fill shapes (zeros, 0xff, pattern, v0-shaped, v255-shaped) through new/new_v0/new_v255/from_raw/JSON, compared with the reference predicate; accepted namespaces get every round trip. Non-trivial = version 0 or 255 (where the id decides) or id length 28 (distinct by version,len,fill)",
+        true,
+        grid,
+        |c, obs| {
+            let id = fill_bytes(c.fill, c.len as usize);
+            let nt = c.version == 0 || c.version == 255 || c.len == 28;
+            obs.eval(nt.then(|| digest_of(c)));
+            check_constructors(obs, c.version, &id, "grid-")?;
+            Ok(())
+        },
+    );
+
+    // ---- exhaustive single-byte corruptions of the mandatory prefix (and of the version byte)
+    let mut corr = Vec::new();
+    for v255 in [false, true] {
+        let last = if v255 { 27u8 } else { 18u8 };
+        for base in 0..4u8 {
+            let b = base_ns(v255, base);
+            for pos in 0..=last {
+                for val in 0..=255u8 {
+                    if val != b[pos as usize] {
+                        corr.push(CorruptCase { v255, base, pos, val });
+                    }
+                }
+            }
+        }
+    }
+    ctx.enumerate(
+        "prefix-corruptions",
+        "4 valid v0 and 4 valid v255 namespaces x every byte position of the version byte and of the mandatory prefix (18 bytes v0 / 27 bytes v255) x all 255 other byte values; each corrupted 29-byte string must be rejected by from_raw/new/new_v0/new_v255/JSON exactly when the reference predicate rejects it. Non-trivial = every case (all are one byte away from a valid namespace)",
+        true,
+        corr,
+        |c, obs| {
+            let base = base_ns(c.v255, c.base);
+            // the uncorrupted base must be accepted (generator sanity, also exercised by the grid)
+            if Namespace::from_raw(&base).is_err() {
+                return Err(Failure::new("C14:valid-rejected", format!("base namespace {base:02x?} rejected")));
+            }
+            let mut raw = base;
+            raw[c.pos as usize] = c.val;
+            obs.eval(Some(digest_bytes(&raw)));
+            let accepted = check_constructors(obs, raw[0], &raw[1..], "one-byte-")?;
+            if c.pos == 0 {
+                obs.label(if accepted { "one-byte-version-still-valid" } else { "one-byte-version-rejected" });
+            } else if !accepted {
+                obs.label(if c.v255 { "one-byte-v255-prefix-rejected" } else { "one-byte-v0-prefix-rejected" });
+            } else {
+                // a prefix corruption can never leave a valid namespace
+                return Err(Failure::new("gen", format!("reference predicate accepted the prefix corruption {raw:02x?}")));
+            }
+            Ok(())
+        },
+    );
+
+    // ---- the named constants
+    ctx.enumerate(
+        "constants",
+        "the reserved-range constants are the byte strings the statement names",
+        false,
+        vec![0u8],
+        |_, obs| {
+            obs.eval(None);
+            obs.check(Namespace::MAX_PRIMARY_RESERVED.as_bytes() == &MAX_PRIMARY[..], "C14:constants", || "MAX_PRIMARY_RESERVED != 0x00^28 0xff".into())?;
+            obs.check(Namespace::MIN_SECONDARY_RESERVED.as_bytes() == &MIN_SECONDARY[..], "C14:constants", || "MIN_SECONDARY_RESERVED != 0xff^28 0x00".into())?;
+            for (n, c) in [
+                ("TRANSACTION", Namespace::TRANSACTION),
+                ("PAY_FOR_BLOB", Namespace::PAY_FOR_BLOB),
+                ("PRIMARY_RESERVED_PADDING", Namespace::PRIMARY_RESERVED_PADDING),
+                ("TAIL_PADDING", Namespace::TAIL_PADDING),
+                ("PARITY_SHARE", Namespace::PARITY_SHARE),
+                ("MAX_PRIMARY_RESERVED", Namespace::MAX_PRIMARY_RESERVED),
+                ("MIN_SECONDARY_RESERVED", Namespace::MIN_SECONDARY_RESERVED),
+            ] {
+                let b: [u8; NS] = c.as_bytes().try_into().unwrap();
+                obs.check(ref_from_raw(&b).is_some(), "C14:constants", || format!("constant {n} is not a valid namespace"))?;
+                check_accepted(obs, &c, &b, n)?;
+                obs.check(c.is_reserved(), "C14:is-reserved", || format!("constant {n} is not reserved"))?;
+            }
+            Ok(())
+        },
+    );
+
+    // ---- wire messages that carry the version as a 32-bit field
+    let mut wire = Vec::new();
+    for version in [0u32, 1, 254, 255, 256, 257, 511, 512, 0xff00, 0xffff, 0x1_0000, 0x1_00ff, 0x100_0000, 0xffff_ff00, u32::MAX] {
+        for fill in [Fill::V0Shape, Fill::V255Shape, Fill::Zeros, Fill::Ones] {
+            for len in [28u8, 10, 0] {
+                wire.push((version, fill, len));
+            }
+        }
+    }
+    ctx.enumerate(
+        "wire-version-field",
+        "blob wire messages (namespace_version: u32, namespace_id: bytes) with versions around every multiple of 256 x id shapes: a Blob (hence a Namespace) may come out only if the version field itself is 0 or 255 and the id passes the reference predicate. Non-trivial = versions above 255",
+        false,
+        wire,
+        |(version, fill, len), obs| {
+            use celestia_types::consts::appconsts::AppVersion;
+            let id = fill_bytes(*fill, *len as usize);
+            obs.eval((*version > 255).then(|| digest_of(&(version, fill, len))));
+            let raw = celestia_types::blob::RawBlob {
+                namespace_id: id.clone(),
+                namespace_version: *version,
+                data: vec![1, 2, 3],
+                share_version: 0,
+                signer: vec![],
+            };
+            let want = u8::try_from(*version).ok().and_then(|v| ref_new(v, &id));
+            match (celestia_types::Blob::from_raw(raw, AppVersion::V3), want) {
+                (Ok(b), Some(w)) => {
+                    obs.label("wire-version-accepted");
+                    obs.check(b.namespace.as_bytes() == &w[..], "C14:constructed-bytes-differ", || format!("Blob::from_raw(version {version}, id {id:02x?}) built namespace {:02x?}", b.namespace.as_bytes()))?;
+                }
+                (Ok(b), None) if *version > 255 => {
+                    obs.fail(
+                        "C14:wire-version-truncated",
+                        format!("Blob::from_raw accepted namespace_version {version} (id {id:02x?}) and built the version-{} namespace {:02x?}: the 32-bit version is cut to its low byte", b.namespace.version(), b.namespace.as_bytes()),
+                    )?;
+                }
+                (Ok(b), None) => obs.fail("C14:constructed-invalid", format!("Blob::from_raw(version {version}, id {id:02x?}) built namespace {:02x?}", b.namespace.as_bytes()))?,
+                // rejection is always allowed here (reserved namespaces are not blob namespaces)
+                (Err(_), _) => obs.label(if *version > 255 { "wire-version-above-255-rejected" } else { "wire-version-rejected" }),
+            }
+            Ok(())
+        },
+    );
+
+    // ---- random part: ordering, reserved boundary, random raw inputs, multi-byte corruptions
+    let cases = ctx.tier.pick(2_000_000, 12_000_000);
+    ctx.proptest(
+        "random",
+        "random pairs of valid namespaces (random / late-differing / low / v255 suffixes): cmp, partial_cmp, ==, <, <= agree with lexicographic order of the 29 bytes; is_reserved agrees with the byte rule; plus random raw inputs of length 0..=40 (shaped near-valid), multi-byte corruptions and v0 shorthands of length 0..=12 against the reference predicate. Non-trivial = pairs whose order is decided inside the last 10 bytes or across versions, namespaces within 2 of a reserved bound, near-valid raw inputs (distinct by bytes)",
+        cases,
+        || {
+            (
+                ns_spec_strategy(),
+                ns_spec_strategy(),
+                0u8..=40,
+                any::<u64>(),
+                0u8..6,
+                prop::collection::vec((any::<u16>(), any::<u8>()), 1..4),
+                prop::collection::vec(any::<u8>(), 0..=12),
+            )
+                .prop_map(|(a, b, raw_len, raw_seed, shape, edits, short)| RandCase { a, b, raw_len, raw_seed, shape, edits, short })
+        },
+        |c, obs| {
+            let (ab, bb) = (c.a.bytes(), c.b.bytes());
+            let mk = |b: &[u8; NS]| Namespace::from_raw(b).map_err(|e| Failure::new("C14:valid-rejected", format!("valid namespace {b:02x?} rejected: {e}")));
+            let (a, b) = (mk(&ab)?, mk(&bb)?);
+            // ordering
+            let want = ab[..].cmp(&bb[..]);
+            let first_diff = ab.iter().zip(bb.iter()).position(|(x, y)| x != y);
+            let late = matches!(first_diff, Some(p) if p >= 19);
+            let cross = ab[0] != bb[0];
+            obs.eval((late || cross).then(|| digest_bytes(&[&ab[..], &bb[..]].concat())));
+            if late {
+                obs.label("order-decided-in-last-10-bytes");
+            }
+            if cross {
+                obs.label("order-v0-vs-v255");
+            }
+            if first_diff.is_none() {
+                obs.label("order-equal");
+            }
+            obs.check(a.cmp(&b) == want && b.cmp(&a) == want.reverse(), "C14:order-not-lexicographic", || {
+                format!("cmp({ab:02x?}, {bb:02x?}) = {:?}, lexicographic byte order says {want:?}", a.cmp(&b))
+            })?;
+            obs.check(
+                a.partial_cmp(&b) == Some(want) && (a == b) == (want == Ordering::Equal) && (a < b) == (want == Ordering::Less) && (a <= b) == (want != Ordering::Greater) && (a > b) == (want == Ordering::Greater) && (a >= b) == (want != Ordering::Less),
+                "C14:order-not-lexicographic",
+                || format!("comparison operators on ({ab:02x?}, {bb:02x?}) disagree with byte order {want:?}"),
+            )?;
+            // reserved
+            for (ns, bytes) in [(&a, &ab), (&b, &bb)] {
+                let near_primary = bytes[0] == 0 && bytes[1..27].iter().all(|x| *x == 0) && u16::from_be_bytes([bytes[27], bytes[28]]).abs_diff(0xff) <= 2;
+                let near_secondary = bytes[0] == 0xff && (bytes[28] <= 2);
+                let top_v0 = bytes[0] == 0 && bytes[19..].iter().all(|x| *x == 0xff);
+                obs.eval((near_primary || near_secondary || top_v0).then(|| digest_bytes(bytes)));
+                if near_primary {
+                    obs.label("reserved-boundary-primary");
+                }
+                if near_secondary {
+                    obs.label("reserved-boundary-secondary");
+                }
+                check_accepted(obs, ns, bytes, "random")?;
+                obs.label(if ns.is_reserved() { "reserved" } else { "not-reserved" });
+            }
+            // random raw input near a valid shape
+            let mut rng = lv_common::Prng::new(c.raw_seed);
+            let len = c.raw_len as usize;
+            let mut raw: Vec<u8> = match c.shape {
+                0 => rng.bytes(len),
+                1 => vec![0u8; len],
+                2 => vec![0xffu8; len],
+                3 => ab.iter().copied().chain(rng.bytes(40)).take(len).collect(),
+                4 => bb.iter().copied().chain(std::iter::repeat(0)).take(len).collect(),
+                _ => {
+                    let mut v = vec![0u8; len];
+                    if len > 19 {
+                        rng.fill(&mut v[19..]);
+                    }
+                    v
+                }
+            };
+            if c.shape == 5 && !raw.is_empty() && rng.below(4) == 0 {
+                raw[0] = 0xff;
+            }
+            obs.eval((len == NS || c.shape >= 3).then(|| digest_bytes(&raw)));
+            if raw.is_empty() {
+                obs.check(Namespace::from_raw(&raw).is_err(), "C14:constructed-invalid", || "from_raw(empty) accepted".into())?;
+                obs.label("rejected-length");
+            } else {
+                check_constructors(obs, raw[0], &raw[1..], "random-")?;
+            }
+            // multi-byte corruption of a
+            let mut cor = ab;
+            for (p, v) in &c.edits {
+                cor[pick(*p, NS)] = *v;
+            }
+            if cor != ab {
+                obs.eval(Some(digest_bytes(&cor)));
+                let acc = check_constructors(obs, cor[0], &cor[1..], "multi-")?;
+                obs.label(if acc { "multi-corruption-still-valid" } else { "multi-corruption-rejected" });
+            }
+            // v0 shorthand of length 0..=12
+            obs.eval(Some(digest_bytes(&c.short) ^ 0x5507));
+            check_constructors(obs, 0, &c.short, "short-")?;
+            Ok(())
+        },
+    );
 }
